@@ -14,18 +14,7 @@
 (* P = 0 stands for "unlimited" (negotiated frame_max = 0, or so large     *)
 (* that it cannot bind: see PayloadLimit).                                 *)
 (***************************************************************************)
-EXTENDS Naturals, Sequences
-
-FrameOverhead == 8
-
-\* per-frame payload limit for a negotiated frame_max; 0 = unlimited
-PayloadLimit(frameMax) == IF frameMax = 0 THEN 0 ELSE frameMax - FrameOverhead
-
-NChunks(L, P) == IF P = 0 THEN (IF L = 0 THEN 0 ELSE 1) ELSE (L + P - 1) \div P
-
-\* payload length of the i-th body frame
-ChunkAt(L, P, i) == IF P = 0 THEN L
-                    ELSE IF i * P <= L THEN P ELSE L - (i - 1) * P
+EXTENDS Naturals, Sequences, ChunksOps   \* FrameOverhead, PayloadLimit, NChunks, ChunkAt: ChunksOps.tla (shared with ChunksInd.tla)
 
 \* payload lengths of the body frames, in order
 Chunks(L, P) == [i \in 1..NChunks(L, P) |-> ChunkAt(L, P, i)]
